@@ -227,18 +227,21 @@ def run(pid: str, tier: str, seed: int, selftest=False, replay=None) -> int:
             rep.refused += 1
             continue
         c = acc.streamer_config.data
-        mk = markers()
-        pats = rand_patterns(rng, c, mk)
-        zeros = [(rng.random() < 0.15 and i < len(pats) - 1) for i in range(len(pats))]
-        tail = [{"name": "alu_mode", "mode": "any", "v": 0}]
-        if len(pats[0]["ub"]) == 1:
-            tail.append({"name": "loop_bound_alu", "mode": "eq", "v": pats[0]["ub"][0]})
-        else:
-            tail.append({"name": "loop_bound_alu", "mode": "any", "v": 0})
+        # every third accelerator object lowers a second region with other patterns (what the object keeps between two operations matters)
+        for nth in range(2 if k % 3 == 0 else 1):
+            mk = markers()
+            pats = rand_patterns(rng, c, mk)
+            zeros = [(rng.random() < 0.15 and i < len(pats) - 1) for i in range(len(pats))]
+            tail = [{"name": "alu_mode", "mode": "any", "v": 0}]
+            if len(pats[0]["ub"]) == 1:
+                tail.append({"name": "loop_bound_alu", "mode": "eq", "v": pats[0]["ub"][0]})
+            else:
+                tail.append({"name": "loop_bound_alu", "mode": "any", "v": 0})
+            name = f"alu-cfg:{seed}:{k}:{acc.streamer_config}" + ("#second" if nth else "")
+            case = build_case(name, acc, pats, zeros, alu_body(len(pats)), len(pats) - 1, tail, 0, rep)
+            if case:
+                cases.append(case)
         name = f"alu-cfg:{seed}:{k}:{acc.streamer_config}"
-        case = build_case(name, acc, pats, zeros, alu_body(len(pats)), len(pats) - 1, tail, 0, rep)
-        if case:
-            cases.append(case)
         if pid == "C04" or True:
             maps.append(reg_map_case(name, acc))
     # (2) gemmx: default configuration and other array sizes, mac / qmac with i32 output
